@@ -250,6 +250,21 @@ let () = register "detect" (fun args ->
   and uc = int_of_z (class_count only_u Z0 h) and nuc = int_of_z (class_count is_nuc_letter Z0 h) in
   Printf.sprintf "biotype=%s dna=%s prot=%s exact=%s total=%d po=%d u=%d nuc=%d" bt (hex_of_n (bits_of_f64 sd)) (hex_of_n (bits_of_f64 sp)) sgn tot po uc nuc)
 
+(* ---- C17: comparison score ------------------------------------------------------------------------- *)
+let parse_named s = List.map (fun a ->
+    match String.split_on_char ':' a with
+    | [n; r] -> (bytes_of_hexstr n, (if r = "-" then [] else bytes_of_hexstr r))
+    | _ -> failwith "bad named row") (String.split_on_char ',' s)
+
+let () = register "cmp" (fun args ->
+  match args with
+  | [r; t] ->
+    let (c, sc) = compare_model (parse_named r) (parse_named t) in
+    Printf.sprintf "OK %d ra=%d rg=%d ta=%d tg=%d ia=%d ig=%d" (int_of_n sc)
+      (int_of_n c.ref_aligned) (int_of_n c.ref_gap) (int_of_n c.test_aligned) (int_of_n c.test_gap)
+      (int_of_n c.ident_aligned) (int_of_n c.ident_gap)
+  | _ -> "BADARGS")
+
 let main () =
   try
     while true do
